@@ -148,6 +148,8 @@ struct World
         std::uint32_t since, passed;    // see C23_latency_state.cpp
         std::uint8_t  cfg, pulled;
         std::uint8_t  closed;
+        std::uint8_t  requested;        // bit per own LL procedure the application asked for ( each at most once )
+        std::uint8_t  ll_request_waiting; // ... and an end_event() has not run since
         std::uint8_t  cancel_req;       // the link layer called request_event_cancelation(); the radio owes it a try_event_cancelation()
         std::uint8_t  must_cancel;      // ... and a callback ( end_event / timeout ) ran since: run() serves the request in the same pass
     } ref;
@@ -196,7 +198,7 @@ struct World
         normalise();
     }
 
-    enum { ev_empty, ev_read, ev_md, ev_crc, ev_missed, ev_unack, ev_notify, ev_cancel1, ev_cancel2, ev_cancel3, ev_cancel0, ev_map2, ev_map6, ev_cfg0, ev_cfg1, ev_count };
+    enum { ev_empty, ev_read, ev_md, ev_crc, ev_missed, ev_unack, ev_notify, ev_cancel1, ev_cancel2, ev_cancel3, ev_cancel0, ev_map2, ev_map6, ev_cfg0, ev_cfg1, ev_req_version, ev_req_phy, ev_req_param, ev_count };
     int num_events() const { return ev_count; }
     std::string describe( int ev ) const
     {
@@ -204,7 +206,8 @@ struct World
             "connection event: empty PDUs, CRC error reported", "connection event missed (timeout)", "connection event: empty PDUs, radio reports unacknowledged data",
             "application: notify()", "try_event_cancelation(), now = last event + 1us", "try_event_cancelation(), now = last event + 1/2 interval",
             "try_event_cancelation(), now = planned event - 1/2 interval", "try_event_cancelation(), radio refuses to disarm", "connection event: LL_CHANNEL_MAP_REQ instant +2", "connection event: LL_CHANNEL_MAP_REQ instant +6",
-            "change_peripheral_latency< configuration 0 >()", "change_peripheral_latency< configuration 1 >()" };
+            "change_peripheral_latency< configuration 0 >()", "change_peripheral_latency< configuration 1 >()",
+            "application: remote_versions_request()", "application: phy_update_request_to_2mbit()", "application: connection_parameter_update_request( 24, 40, 0, 100 )" };
         return t[ ev ];
     }
 
@@ -312,9 +315,11 @@ struct World
             if ( c.fails.empty() && ( mask & PEND ) && adv != 1 && ll->pending_outgoing_data_available() && !ll->cap.pending_at_schedule && ref.cancel_req )
                 c.cls( "ll-plan:outgoing-data-created-after-planning:repair-left-to-outstanding-cancelation-request" );
             else if ( c.fails.empty() && ( mask & PEND ) && adv != 1 && ll->pending_outgoing_data_available() && !ll->cap.pending_at_schedule )
-                c.fail( "ll-plan:outgoing-data-created-after-planning-waits-for-latency",
+                c.fail( ref.ll_request_waiting ? "ll-plan:own-ll-procedure-pdu-created-after-planning-waits-for-latency" : "ll-plan:outgoing-data-created-after-planning-waits-for-latency",
                         mc::fmt( "%s: end_event() returned with outgoing data in the transmit buffer, but the next connection event is %u events away (nothing was pending when it was planned); %s",
                                  cfgkind().c_str(), adv, c.obs.c_str() ) );
+            if ( ref.ll_request_waiting ) c.cls( mc::fmt( "own-procedure-pdu:%s", ll->cap.pending_at_schedule ? "in-buffer-when-planned" : "not-in-buffer-when-planned" ) );
+            ref.ll_request_waiting = 0;
             c.cls( mc::fmt( "ll-plan:%s:%s:%s", cfgkind().c_str(),
                             hit ? ( ( hit & ALWAYS ) ? "listen_always" : ( hit & ERR ) ? "error" : cond_name[ __builtin_ctz( hit ) ] ) : "nothing-to-listen-for",
                             adv == 1 ? "next-event" : ( dist && adv == dist ) ? "skip-to-instant" : adv == latency + 1 ? "full-skip" : "partial-skip" ) );
@@ -386,6 +391,25 @@ struct World
             normalise();
             return true;
         }
+        case ev_req_version: case ev_req_phy: case ev_req_param:
+        {
+            // own LL procedures: the application asks between two connection events; the PDU has to be in the transmit buffer
+            // when the next connection event is planned ( same oracle as for notifications )
+            const unsigned bit = 1u << ( ev - ev_req_version );
+            if ( ref.requested & bit ) return false;
+            const bool r = ev == ev_req_version ? ll->remote_versions_request()
+                         : ev == ev_req_phy     ? ll->phy_update_request_to_2mbit()
+                         :                        ll->connection_parameter_update_request( 24, 40, 0, 100 );
+            const Obs after = observe();
+            c.obs = mc::fmt( "->%d, %u wake ups", r, ll->log.wake_ups );
+            if ( after.counter != before.counter || after.index != before.index || after.time != before.time || ll->cap.scheduled )
+                c.fail( "ll-request:changes-planned-event", c.obs );
+            ref.requested |= bit;
+            if ( r ) ref.ll_request_waiting = 1;
+            c.cls( mc::fmt( "own-procedure:%s:%s", ev == ev_req_version ? "version" : ev == ev_req_phy ? "phy" : "connection-parameters", r ? "accepted" : "refused" ) );
+            normalise();
+            return true;
+        }
         case ev_cfg0: case ev_cfg1:
         {
             const int i = ev - ev_cfg0;
@@ -413,7 +437,7 @@ int main( int argc, char** argv )
     if ( !a.replay.empty() ) return bfs.replay_file( mc::read_replay( a.replay ) );
     bfs.run();
     rep.notes[ "configuration" ] = mc::fmt( "%s, peripheral latency %u, link layer object %zu bytes", cfg_name, latency, sizeof( ll_t ) );
-    rep.notes[ "bound" ] = mc::fmt( "all sequences of up to %d steps (15 kinds: 6 kinds of connection events, missed event, notify(), 4 radio answers to try_event_cancelation, LL_CHANNEL_MAP_REQ instant +2/+6, configuration switch) from an established connection with notifications enabled",
+    rep.notes[ "bound" ] = mc::fmt( "all sequences of up to %d steps (18 kinds: 6 kinds of connection events, missed event, notify(), 3 own LL procedures requested by the application, 4 radio answers to try_event_cancelation, LL_CHANNEL_MAP_REQ instant +2/+6, configuration switch) from an established connection with notifications enabled",
                                     o.max_depth );
     rep.write( a );
     return 0;
